@@ -567,7 +567,7 @@ func ruleConnWhoMayCall(p *Program, r *Result) {
 	ro := rolesOK(p, r)
 	wrapper := wrapperType(p, ro)
 	n := 0
-	for _, fn := range p.FuncsIn(func(path string) bool { return path == modPath }) {
+	for _, fn := range p.UnitsIn(func(path string) bool { return path == modPath }) {
 		for _, c := range allCalls(fn) {
 			cc := c.Common()
 			var on ssa.Value
